@@ -150,7 +150,8 @@ def make_section(spec):
 def gen_analyze(rng):
     chord = rng.choice([0.3, 1.0, 1.0, 25.0, 100.0])
     spec = {"chord": chord, "camber": rng.choice([0.0, 0.02, 0.05, 0.08]), "tmax": rng.choice([0.04, 0.08, 0.12, 0.2]), "xt": rng.choice([0.25, 0.3, 0.4, 0.5, 0.6]),
-            "r_end": rng.choice([0.005, 0.01, 0.03]), "n": rng.choice([150, 300, 600]), "ccw": rng.random() < 0.5, "roll": rng.randrange(600),
+            # the end radius varies continuously: where the station march stops short of an edge (its phase) follows from it
+            "r_end": rng.choice([0.005, 0.01, 0.03]) * rng.uniform(0.8, 1.25), "n": rng.choice([150, 300, 600]), "ccw": rng.random() < 0.5, "roll": rng.randrange(600),
             "pose": [rng.choice([0.0, rng.uniform(-3, 3)]), rng.choice([0.0, rng.uniform(-5, 5) * chord]), rng.choice([0.0, rng.uniform(-5, 5) * chord])]}
     if spec["r_end"] * 2 >= spec["tmax"] * 0.8:
         spec["r_end"] = spec["tmax"] * 0.1
@@ -656,7 +657,11 @@ def oracle(c, r):
     for nm, e, end in (("leading", r["le"], cam[0]), ("trailing", r["te"], cam[-1])):
         if e is None:
             continue
-        if e["kind"] != "open" and dist_poly(e["p"], sec) > 10 * tol:
+        # an edge point placed on an arc fitted through the vertices (converge, fit, const) lies off the polyline by up to the
+        # sagitta of the local segments, s^2 / (8 r), however tight the tolerances: allowed twice over
+        seg_near = sorted((seg_dist(e["p"], a, b), math.dist(a, b)) for a, b in zip(sec, sec[1:] + sec[:1]))[:3]
+        sag = max(x[1] for x in seg_near) ** 2 / (4 * max(spec["r_end"] * chord, 1e-12)) if c["leading" if nm == "leading" else "trailing"] in ("converge", "fit", "const") else 0.0
+        if e["kind"] != "open" and dist_poly(e["p"], sec) > 10 * tol + sag:
             yield ("edge-on-section", what + ": %s edge point %r is %r from the section" % (nm, e["p"], dist_poly(e["p"], sec)))
         if math.dist(e["p"], end) > 1e-6 * chord:
             yield ("edge-camber-end", what + ": %s edge point %r is not the %s end of the camber curve %r" % (nm, e["p"], "first" if nm == "leading" else "last", end))
@@ -679,6 +684,8 @@ def oracle(c, r):
             return best[1]
         # FaceOrient::Detect goes by the curvature of the extracted camber line: on an unevenly cut section that line bends towards the
         # longer surface near the open end, so the detected side is only demanded for level cuts
-        if ((spec["camber"] > 0 and not spec.get("cut")) or c["face"] != "detect") and not hook:
+        # nor where an edge is located by maximum curvature (trace): the generated ends are circular arcs, of constant curvature, the
+        # located point wanders along the arc (by up to the end radius) and tilts the chord the detection measures from
+        if ((spec["camber"] > 0 and not spec.get("cut") and "trace" not in (c["leading"], c["trailing"])) or c["face"] != "detect") and not hook:
             if at_mid(up) < at_mid(lo):
                 yield ("faces-side", what + ": the surface reported as upper lies below the lower one along the upper direction")
